@@ -75,6 +75,7 @@ REQUIRED_COUNTERS = [
     "checkpoint_checks",
 ]
 CASE_TIMEOUT_S = 900
+GEN_CAP = 40  # generations; every generated budget is met after <= 6
 
 LOOP_FN = {
     "off": "train_off_policy",
@@ -123,6 +124,10 @@ def preload():
 _MON = None
 
 
+class _Runaway(Exception):
+    """Raised by the counting environments to abort a loop that ran far beyond its budget."""
+
+
 class Mon:
     def __init__(self, rec: Recorder, case, n_pop: int):
         self.rec = rec
@@ -150,6 +155,7 @@ class Mon:
         self.learn_calls = 0
         self.bandit_obs_shapes = set()
         self.select_calls = 0
+        self.abort = False
 
     # ------------------------------------------------------------------ plumbing
     def guard(self, fn, *a):
@@ -194,6 +200,8 @@ class Mon:
 
     # ------------------------------------------------------------------ events
     def on_env_step(self, n):
+        if self.abort:
+            raise _Runaway()
         if self.in_test:
             self.env_steps_test += n
             return
@@ -241,6 +249,8 @@ class Mon:
         pop = self.cur_pop
         self.gen += 1
         rec.hit("generations")
+        if self.gen > GEN_CAP:
+            self.abort = True
         tested = sorted(id(t[0]) for t in self.gen_tests)
         if tested != sorted(id(a) for a in pop):
             rec.violate("fitness", "evaluation_not_once_per_agent", self.fn, **self.detail(
@@ -1241,9 +1251,17 @@ def run_case(case):
                     ret = fn(*args, **kw)
                 except CaseTimeout:
                     raise
+                except _Runaway:
+                    crashed = "runaway"
                 except Exception as e:
                     crashed = e
-            if crashed is not None:
+            if crashed == "runaway":
+                rec.hit("budget_checks")
+                rec.violate("budget", "ran_a_generation_after_budget_met", mon.fn, **mon.detail(
+                    runaway=True, generations=mon.gen, steps_after_generation=mon.post[-1] if mon.post else None,
+                    max_steps=int(case["max_steps"])))
+                mon.guard(mon.check_steps, mon.cur_pop or [], "runaway_abort")
+            elif crashed is not None:
                 _report_crash(rec, mon, case, crashed)
             else:
                 rec.hit("runs_completed")
@@ -1300,6 +1318,17 @@ def _report_crash(rec, mon, case, e):
         num_envs=case.get("num_envs"),
         learn_step=case.get("learn_step"),
     )
+    # two different statements of one function are two mechanisms: name the failing statement (text, no line number)
+    from vf.core import repo_root
+
+    root = repo_root() + os.sep
+    for fr in reversed(traceback.extract_tb(e.__traceback__)):
+        if os.path.abspath(fr.filename).startswith(root):
+            stmt = re.sub(r"\s+", " ", (fr.line or "").strip())[:70]
+            w = rec.witnesses[-1]
+            w["statement"] = stmt
+            w["site"] = f"{w['site']}@{stmt}"
+            break
 
 
 def _met(loop, steps, max_steps):
@@ -1397,8 +1426,15 @@ def _checkpoint_checks(rec, mon, case, pop, n_pop, tmp):
         rec.violate("checkpoint", "no_checkpoint_although_frequency_reached", fn, **mon.detail(
             checkpoint=ck, first_member_steps=[p[0] for p in mon.post]))
         return
-    if len(saves) % n_pop != 0:
-        rec.violate("checkpoint", "checkpoint_does_not_cover_population", fn, **mon.detail(saves=len(saves), pop=n_pop))
+    events = {}
+    for path, index, steps, gen in saves:
+        events.setdefault(gen, []).append(path)
+    for gen, paths in sorted(events.items()):
+        rec.hit("checkpoint_events")
+        if len(paths) != n_pop or len(set(paths)) != n_pop:
+            rec.violate("checkpoint", "checkpoint_does_not_cover_population", fn, **mon.detail(
+                at=gen, files=[os.path.basename(p) for p in paths], pop=n_pop))
+            break
     missing = [os.path.basename(p) for p, _, _, _ in saves if not os.path.exists(p)]
     if missing:
         rec.violate("checkpoint", "checkpoint_file_missing", fn, **mon.detail(missing=missing[:4]))
